@@ -324,6 +324,26 @@ class Summarizer:
             syn = desugar_ifexp(n)
             if syn is not None:
                 return self.stmt(syn, st)
+        if isinstance(n, (ast.Assign, ast.AugAssign, ast.AnnAssign, ast.Return, ast.Expr)) and self.depth > 0 and hasattr(self.h, "inline"):
+            hp = self.hoistable_call(n)
+            if hp is not None:
+                from .core import clone_ast
+                new = clone_ast(n)
+                cur = new
+                for fld, i in hp[:-1]:
+                    cur = getattr(cur, fld) if i is None else getattr(cur, fld)[i]
+                fld, i = hp[-1]
+                call = getattr(cur, fld) if i is None else getattr(cur, fld)[i]
+                tmp = "__h%d_%d" % (getattr(call, "lineno", 0), getattr(call, "col_offset", 0))
+                ref = ast.copy_location(ast.Name(id=tmp, ctx=ast.Load()), call)
+                if i is None:
+                    setattr(cur, fld, ref)
+                else:
+                    getattr(cur, fld)[i] = ref
+                pre = ast.copy_location(ast.Assign(targets=[ast.Name(id=tmp, ctx=ast.Store())], value=call), n)
+                ast.fix_missing_locations(pre)
+                ast.fix_missing_locations(new)
+                return self.block([pre, new], st)
         if isinstance(n, ast.Expr):
             if isinstance(n.value, ast.Constant):
                 return [(st, None)]
@@ -480,6 +500,39 @@ class Summarizer:
         raise Unsupported("target")
 
     # ------------------------------------------------------------ expressions
+    def hoistable_call(self, stmt):
+        """path to the first call of an inlinable multi-path helper that sits inside the statement's expression (not the
+        whole value, which expr_forks forks anyway; not in a short-circuited operand, comprehension or lambda)"""
+        top = stmt.value if isinstance(stmt, (ast.Assign, ast.AugAssign, ast.AnnAssign, ast.Return, ast.Expr)) else None
+        if top is None:
+            return None
+
+        def rec(node, path):
+            if isinstance(node, (ast.ListComp, ast.SetComp, ast.DictComp, ast.GeneratorExp, ast.Lambda, ast.IfExp)):
+                return None
+            if isinstance(node, ast.Call) and node is not top:
+                fname = self.call_name(node)
+                tgt = self.h.inline(fname)
+                if tgt is not None and sum(1 for x in ast.walk(tgt[0]) if isinstance(x, (ast.Return, ast.Raise))) > 1:
+                    return path
+            for fld, val in ast.iter_fields(node):
+                if isinstance(val, ast.AST):
+                    if isinstance(node, ast.BoolOp):
+                        continue
+                    r = rec(val, path + ((fld, None),))
+                    if r is not None:
+                        return r
+                elif isinstance(val, list):
+                    for i, x in enumerate(val):
+                        if isinstance(x, ast.AST):
+                            if isinstance(node, ast.BoolOp) and i > 0:
+                                continue
+                            r = rec(x, path + ((fld, i),))
+                            if r is not None:
+                                return r
+            return None
+        return rec(top, (("value", None),))
+
     def expr_forks(self, n, st):
         """evaluate an expression that may be an inlinable call -> [(State, value)]"""
         if isinstance(n, ast.Call) and self.depth > 0:
@@ -816,13 +869,35 @@ class Summarizer:
             return Not(f) if isinstance(op, ast.IsNot) else f
         o = CMP[type(op)]
         # np.sign(x) == np.sign(y)
-        if o in ("==", "!=") and self.is_sign_call(an) and self.is_sign_call(bn):
+        if o in ("==", "!=") and ((self.is_sign_call(an) and self.is_sign_call(bn)) or (self.is_sign_value(a) and self.is_sign_value(b))):
             f = f_sign_eq(to_num(a), to_num(b), self.ctx)
             return f if o == "==" else Not(f)
         if o in ("==", "!="):
+            # x == {} / [] / () / set(): x is empty (the compared value is taken to be a container of that kind)
+            for x, y in ((a, b), (b, a)):
+                if self.is_empty_container(y) and not self.is_empty_container(x) and not isinstance(x, (str, bool, int, float, Fraction, RF)):
+                    f = Not(self.truthy(x))
+                    return f if o == "==" else Not(f)
             f = self.eq(a, b)
             return f if o == "==" else Not(f)
         return f_cmp(o, to_num(a), to_num(b), self.ctx)
+
+    def is_empty_container(self, v):
+        if isinstance(v, DictV) and not v.items:
+            return True
+        if isinstance(v, ListV) and not v.items:
+            return True
+        if isinstance(v, tuple) and len(v) == 0:
+            return True
+        return isinstance(v, Sym) and isinstance(v.key, tuple) and len(v.key) == 3 and v.key[0] == "call" and v.key[1] in ("set", "dict", "list", "tuple", "frozenset") and v.key[2] == ()
+
+    def is_sign_value(self, v):
+        """a value that is a sign (+-1 times sign atoms), however it reached the comparison (a local, a helper result)"""
+        from .guards import is_sign
+        if not isinstance(v, RF) or v.is_const():
+            return False
+        st = v.single_term()
+        return st is not None and abs(st[0]) == 1 and len(st[1]) > 0 and all(is_sign(a) or a[0] == "SGN" for a, _ in st[1])
 
     def is_sign_call(self, n):
         return isinstance(n, ast.Call) and self.call_name(n) in ("np.sign", "numpy.sign") or (
